@@ -137,6 +137,22 @@ DIRECTED = [
       "8606:you.nondeductible_contributions": "2000.00", "8606:you.nondeductible_contributions_next_year": "500.00",
       "8606:you.year_end_value_non_roth": "44000.00", "8606:you.distributions_{year}": "6000.00", "8606:you.net_converted": "0.00",
       "8606:you.part_2_needed": "no", "8606:you.part_3_needed": "no", "w-2:0.box_1": "70000.00", "w-2:0.box_2": "8000.00"}),
+    # a couple who BOTH took fully taxable IRA distributions (different amounts, no rollover / Form 8606 / charitable distribution), and a pension
+    ({"status": "MarriedFilingJointly", "dependents": 0, "wage_scale": 60000, "ira": True, "f8606": False},
+     {"1099-r": 3},
+     {"1099-r:0.box_1": "3000.00", "1099-r:0.box_2a": "3000.00", "1099-r:0.box_7_ira_sep_simple": "yes", "1099-r:0.belongs_to": "taxpayer",
+      "1099-r:1.box_1": "10000.00", "1099-r:1.box_2a": "10000.00", "1099-r:1.box_7_ira_sep_simple": "yes", "1099-r:1.belongs_to": "spouse",
+      "1099-r:2.box_1": "5000.00", "1099-r:2.box_2a": "4200.00", "1099-r:2.box_7_ira_sep_simple": "no", "1099-r:2.belongs_to": "spouse",
+      "1099-r:2.box_2b_taxable_not_determined": "no",
+      "1040.ira_exception1_you": "no", "1040.ira_exception2_you": "no", "1040.ira_exception3_you": "no", "1040.ira_exception4_you": "no",
+      "1040.ira_exception1_spouse": "no", "1040.ira_exception2_spouse": "no", "1040.ira_exception3_spouse": "no", "1040.ira_exception4_spouse": "no",
+      "1040.pensions_annuities_adjustments": "no", "w-2:0.box_1": "70000.00", "w-2:0.box_2": "8000.00"}),
+    # ... and only the spouse
+    ({"status": "MarriedFilingJointly", "dependents": 0, "wage_scale": 60000, "ira": True, "f8606": False},
+     {"1099-r": 1},
+     {"1099-r:0.box_1": "7500.00", "1099-r:0.box_2a": "7500.00", "1099-r:0.box_7_ira_sep_simple": "yes", "1099-r:0.belongs_to": "spouse",
+      "1040.ira_exception1_spouse": "no", "1040.ira_exception2_spouse": "no", "1040.ira_exception3_spouse": "no", "1040.ira_exception4_spouse": "no",
+      "w-2:0.box_1": "70000.00", "w-2:0.box_2": "8000.00"}),
 ]
 
 
@@ -179,6 +195,8 @@ def cli_report_check(scs, rep, cov, tier):
         for kind in sorted(by_kind):
             chosen += by_kind[kind][:per]
         cases = []
+        n_removed = 0
+        removed_names = []
         for n, sc in enumerate(chosen):
             cases.append((sc, dict(sc["given"]), sc["res"]))
             rng = random.Random("cli-%s" % sc["sid"])
@@ -190,6 +208,24 @@ def cli_report_check(scs, rep, cov, tier):
                 conf2 = runs.make_config({k3: v.replace("%", "%%") for k3, v in g2.items()})
                 _t, res2, _s = runs.run_traced(F.available_forms[sc["year"]], conf2, sc["request"], (), user=None, mode="real", snap="none", max_events=30000)
                 cases.append((dict(sc, given=g2, sid=sc["sid"] + "/less"), g2, res2))
+            # ONE answer that the complete run read is taken away (first choice: one that may be left blank -- absent is not blank):
+            # the line that read it runs into the gap after the same reads as before, so the run cannot end as solved
+            if sc["res"].get("solved") and sc.get("trace") and sc.get("solver") is not None:
+                read_in = sorted(set(n for ev in sc["trace"]["events"] if ev["ev"] == "attempt" for (k3, n, _d) in ev["reads"] if k3 == "in" and n in sc["given"]))
+                specs = sc["solver"]._input_map
+                blankable = [n for n in read_in if getattr(specs.get(n), "allow_empty", False)]
+                for pick in ([rng.choice(blankable)] if blankable else []) + ([rng.choice(read_in)] if read_in else []):
+                    g3 = dict(sc["given"])
+                    del g3[pick]
+                    conf3 = runs.make_config({k3: v.replace("%", "%%") for k3, v in g3.items()})
+                    _t, res3, _s = runs.run_traced(F.available_forms[sc["year"]], conf3, sc["request"], (), user=None, mode="real", snap="none", max_events=30000)
+                    n_removed += 1
+                    removed_names.append("%s%s" % (pick, "" if pick not in blankable else " (may be blank)"))
+                    if res3["abort"] == "" and res3.get("solved"):
+                        rep.violation("removed:%d:solved although an input that the complete run read was taken away" % sc["year"],
+                                      "%s was read by the complete run (%s); without it the run still ends as solved" % (pick, sc["sid"]),
+                                      {"kind": "scenario", "year": sc["year"], "request": sc["request"], "given": g3})
+                    cases.append((dict(sc, given=g3, sid=sc["sid"] + "/without:" + pick), g3, res3))
         for n, (sc, given_n, res_n) in enumerate(cases):
             path = os.path.join(work, "in_%d.habutax" % n)
             conf = runs.make_config({k2: v.replace("%", "%%") for k2, v in given_n.items()})
@@ -223,6 +259,8 @@ def cli_report_check(scs, rep, cov, tier):
         sc = meta[int(row[0])]
         rep.violation("cli:%d:%s" % (sc["year"], row[1][:70]), "%s (%s)" % (row[1], sc["sid"]), {"kind": "scenario", "year": sc["year"], "request": sc["request"], "given": sc["given"]})
     cov["cli_reports_checked"] = len(obs)
+    cov["runs_with_one_read_input_taken_away"] = n_removed
+    cov["inputs_taken_away"] = sorted(set(removed_names))[:40]
 
 
 def fixed_point_check(scs, rep, cov, tier, work):
